@@ -188,6 +188,23 @@ void explore12(Options const& o, std::vector<Shim*> const& shims, std::vector<Sh
       if( ac + a < PI2_LO || ac + a > PI2_HI ) lv.hit(c.c_acos, ord, [=]{ return ex1(s, "acos", "", {{"x",to_s(x)}}, "within 1 ulp of pi/2 - asin(x) = " + to_s(PI2_LO - a) + ".7", to_s(ac), "in", {to_s(x)}); });
       }
     rec.add_states(2 * 131073, 2 * 131073, 5 * 131073);
+    // the complete domain once more with the thread's errno preset to EDOM / ERANGE before every call (a stale error of an unrelated libm call)
+    for( int ev : { 33, 34 } ) for( int op : { U_ASIN, U_ACOS } )
+      {
+      std::vector<i64> const& base = op == U_ASIN ? A : C;
+      parallel_blocks(33, o.threads, [&](size_t blk, int) {
+        LocalViol lv2(rec);
+        for( i64 x = -65536 + static_cast<i64>(blk) * 4096; x <= std::min<i64>(65536, -65536 + static_cast<i64>(blk) * 4096 + 4095); ++x )
+          {
+          size_t i = static_cast<size_t>(x + 65536); i64 g = s->fm_un_env(op, x, ev);
+          if( g == base[i] ) continue;
+          Interval iv = c.tab[i]; i64 lo = op == U_ASIN ? iv.lo : 102943 - iv.hi, hi = op == U_ASIN ? iv.hi : 102944 - iv.lo;
+          if( fx_isnan(g) || g < lo || g > hi ) lv2.hit(op == U_ASIN ? c.c_acc : c.c_acos, ob | (3ull << 52) | (static_cast<u64>(ev) << 40) | (static_cast<u64>(op) << 32) | i, [=]{ return ex1(s, op == U_ASIN ? "asin" : "acos", std::string("errno preset to ") + (ev == 33 ? "EDOM" : "ERANGE") + " before the call",
+              {{"x",to_s(x)}}, "raw in [" + to_s(lo) + "," + to_s(hi) + "]", to_s(g), "env", {to_s(op), to_s(x), to_s(ev)}); });
+          }
+        });
+      rec.add_states(131073, 131073, 131073); rec.count("calls_with_errno_preset", 131073);
+      }
     for( int op : { U_ASIN, U_ACOS } )
       sweep_un_set(s, op, out_set, o.threads, rec, ob | (1ull << 52) | (static_cast<u64>(op) << 48), [&](i64 x, i64 got, u64 ord, LocalViol& lv2) {
         if( !fx_isnan(got) ) lv2.hit(c.c_not_nan_out, ord, [=]{ return ex1(s, op == U_ASIN ? "asin" : "acos", "", {{"x",to_s(x)}}, "NaN (|x| > 1)", to_s(got), "out", {to_s(op), to_s(x)}); }); });
@@ -197,6 +214,11 @@ void explore12(Options const& o, std::vector<Shim*> const& shims, std::vector<Sh
 void replay12(Options const& o, Shim* s, Recorder& rec)
   {
   C12 c(rec);
+  if( o.rcase == "env" )
+    { int op = static_cast<int>(parse_i64(o.rin.at(0))); i64 x = parse_i64(o.rin.at(1)); int ev = static_cast<int>(parse_i64(o.rin.at(2))); i64 g = s->fm_un_env(op, x, ev);
+      Interval iv = C12::one(x, nullptr); i64 lo = op == U_ASIN ? iv.lo : 102943 - iv.hi, hi = op == U_ASIN ? iv.hi : 102944 - iv.lo;
+      if( fx_isnan(g) || g < lo || g > hi ) rec.viol(op == U_ASIN ? c.c_acc : c.c_acos, 0, [&]{ return ex1(s, op == U_ASIN ? "asin" : "acos", "errno preset", {{"x",to_s(x)}}, "[" + to_s(lo) + "," + to_s(hi) + "]", to_s(g), o.rcase, o.rin); });
+      rec.add_states(1,1,1); return; }
   if( o.rcase == "out" ) { int op = static_cast<int>(parse_i64(o.rin.at(0))); i64 x = parse_i64(o.rin.at(1)); i64 g = s->fm_un(op, x);
     if( !fx_isnan(g) ) rec.viol(c.c_not_nan_out, 0, [&]{ return ex1(s, op == U_ASIN ? "asin" : "acos", "", {{"x",to_s(x)}}, "NaN", to_s(g), o.rcase, o.rin); }); }
   else
